@@ -185,8 +185,18 @@ def r5(F, rep):
         raise AnalysisBroken("only %d latched loop flags found in the grid code" % n)
 
 
+def r6(F, rep):
+    from . import mirror
+    grid_defs = ("colvar::init_grid_parameters", "colvar::cvc::init_scalar_boundaries", "colvarbias_abf::init",
+                 "colvarbias_opes::write_output_files", "colvarbias_restraint_histogram::init")
+    mirror.check(F, rep, "C15-R6", lambda f: (f.cls or "").startswith("colvar_grid") or f.q in grid_defs, 10,
+                 "the grid classes and the functions that define grid boundaries (lower/upper boundaries, hard-boundary and "
+                 "expansion flags)")
+
+
 def run(F, rep, tier):
     r1(F, rep)
     r3(F, rep)
     r4(F, rep)
     r5(F, rep)
+    r6(F, rep)
